@@ -166,6 +166,11 @@ epochLoop:
 			if err != nil {
 				return nil, fmt.Errorf("error while reading linked log with next=%v: %w", next, err)
 			}
+			// Records are appended: the previous record of an address always lies before the current one.
+			// Anything else is a corrupt log (and would make this walk cycle forever).
+			if !newNext.IsZero() && newNext.Offset >= next.Offset {
+				return nil, fmt.Errorf("corrupt linked log: record at offset %d points to a previous record at offset %d", next.Offset, newNext.Offset)
+			}
 			klog.V(5).Infof("ReadWithSize took %s to get %d locs", time.Since(startedReadAt), len(locations))
 			if len(locations) == 0 {
 				continue epochLoop
@@ -270,6 +275,11 @@ epochLoop:
 			locations, newNext, err := index.ll.ReadWithSize(next.Offset, next.Size)
 			if err != nil {
 				return nil, fmt.Errorf("error while reading linked log with next=%v: %w", next, err)
+			}
+			// Records are appended: the previous record of an address always lies before the current one.
+			// Anything else is a corrupt log (and would make this walk cycle forever).
+			if !newNext.IsZero() && newNext.Offset >= next.Offset {
+				return nil, fmt.Errorf("corrupt linked log: record at offset %d points to a previous record at offset %d", next.Offset, newNext.Offset)
 			}
 			klog.V(5).Infof("ReadWithSize took %s to get %d locs", time.Since(startedReadAt), len(locations))
 			if len(locations) == 0 {
